@@ -296,6 +296,8 @@ def canonical_branches(tree: ast.AST, _rounds: int = 3) -> ast.AST:
     """`if not X: A else: B` and `if X: B else: A` are one program.  The rules are written for one of the two shapes; the tree is
     brought into the shape whose test is not a negation before anything looks at it (line numbers stay with the statements).  Likewise a
     loop body that ends in `if X: <rest>` and one that says `if not X: continue` before <rest>: the second shape is canonical."""
+    _before = ast.dump(tree)
+
     class _Canon(ast.NodeTransformer):
         def visit_If(self, node: ast.If):
             self.generic_visit(node)
@@ -494,12 +496,11 @@ def canonical_branches(tree: ast.AST, _rounds: int = 3) -> ast.AST:
                 for h in node.handlers:
                     h.body = fold(h.body)
     tree = ast.fix_missing_locations(tree)
-    # the passes feed each other (an expanded `yield from` whose iterable was hoisted into a local): repeat to a fixed point
+    # the passes feed each other (an expanded `yield from` whose iterable was hoisted into a local): repeat until nothing changes
     if _rounds > 1:
-        before = ast.dump(tree)
-        tree = canonical_branches(tree, _rounds - 1) if True else tree
-        if ast.dump(tree) == before:
-            return tree
+        after = ast.dump(tree)
+        if after != _before:
+            tree = canonical_branches(tree, _rounds - 1)
     return tree
 
 
